@@ -78,7 +78,7 @@ def plan(tier):
 def floors(tier):
     if tier == "thorough":
         return {"cache_hits": 1000000, "first_hit_recomputations": 20000, "twin_collisions": 2000, "injected_perturbations": 2000,
-                "histories_compared": 5000, "suite_files_run": 100}
+                "histories_compared": 5000, "suite_files_run": 80}
     return {"cache_hits": 20000, "first_hit_recomputations": 1500, "twin_collisions": 100, "injected_perturbations": 100,
             "histories_compared": 400}
 
